@@ -117,11 +117,38 @@ CONSTANT CheckRef     \* TRUE: a step is only taken if the reference layer agree
 \* the server of this scenario ran with extended monitoring (overrides Core!ExtMon in the cfg)
 SessExtMon == Has(Sc, "extmon") /\ Sc.extmon
 
+\* Aggregated pattern subscriptions (C16 on a live session): the server batches their events over an
+\* interval, so the recorded batches are not the batches of single steps.  For these streams cons[x] is
+\* the SEQUENCE of <<kind, key, value>> the specification has delivered so far; at the end the recorded
+\* events must be, key by key, that sequence (nothing lost, duplicated or reordered; the snapshot first).
+Aggs == IF Has(Sc, "aggs") THEN ToSetOfSeq(Sc.aggs) ELSE {}
+InitCons(x, i) == IF Has(Rec[i], "aggs") /\ x \in ToSetOfSeq(Rec[i].aggs) THEN <<>> ELSE 0
+RECURSIVE SetSeq(_)
+SetSeq(T) == IF T = {} THEN <<>> ELSE LET x == CHOOSE y \in T : TRUE IN <<x>> \o SetSeq(T \ {x})
+FlatBatch(b) == LET triples == UNION {{<<e.t, kv[1], kv[2]>> : kv \in e.kvs} : e \in b} IN SetSeq(triples)
+RECURSIVE FlatBatches(_)
+FlatBatches(bs) == IF bs = <<>> THEN <<>> ELSE FlatBatch(Head(bs)) \o FlatBatches(Tail(bs))
+RECURSIVE RecFlat(_)
+RecFlat(stream) ==
+  IF stream = <<>> THEN <<>>
+  ELSE [j \in DOMAIN Head(stream).kvs |-> <<Head(stream).t, Head(stream).kvs[j][1], Head(stream).kvs[j][2]>>] \o RecFlat(Tail(stream))
+PerKey(seq, k) == SelectSeq(seq, LAMBDA e : e[2] = k)
+IsPrefixSeq(a, b) == Len(a) <= Len(b) /\ SubSeq(b, 1, Len(a)) = a
+AggOK(x) ==
+  LET rec == RecFlat(Sc.streams[x])
+      keys == {rec[i][2] : i \in DOMAIN rec} \cup {cons[x][i][2] : i \in DOMAIN cons[x]}
+  IN /\ \A i \in DOMAIN Sc.streams[x] :        \* a batch holds no key twice
+          Cardinality({Sc.streams[x][i].kvs[j][1] : j \in DOMAIN Sc.streams[x][i].kvs}) = Len(Sc.streams[x][i].kvs)
+     /\ \A k \in keys :
+          IF \E i \in DOMAIN Sc.exact : Sc.exact[i] = x
+            THEN PerKey(rec, k) = PerKey(cons[x], k)
+            ELSE IsPrefixSeq(PerKey(rec, k), PerKey(cons[x], k))
+
 InitScenario(i) ==
   /\ sc' = i
   /\ pos' = [s \in DOMAIN Rec[i].sessions |-> 1]
   /\ ss' = [c \in {ClientOfIn(Rec[i], s) : s \in DOMAIN Rec[i].sessions} |-> NoSess]
-  /\ cons' = [x \in DOMAIN Rec[i].streams |-> 0]
+  /\ cons' = [x \in DOMAIN Rec[i].streams |-> InitCons(x, i)]
   /\ acq' = <<>> /\ outc' = <<>>
 
 TraceInit ==
@@ -129,7 +156,7 @@ TraceInit ==
   /\ sc = 2
   /\ pos = [s \in DOMAIN Rec[2].sessions |-> 1]
   /\ ss = [c \in {ClientOfIn(Rec[2], s) : s \in DOMAIN Rec[2].sessions} |-> NoSess]
-  /\ cons = [x \in DOMAIN Rec[2].streams |-> 0]
+  /\ cons = [x \in DOMAIN Rec[2].streams |-> InitCons(x, 2)]
   /\ acq = <<>> /\ outc = <<>>
 
 \* X, Y: core state before / after the step, o: observation of the step
@@ -138,9 +165,10 @@ NewCons(X, Y, o) ==
      LET ids == {id \in DOMAIN o.ev : IdStr(id) = x} IN
      IF ids = {} THEN cons[x]
      ELSE LET id == CHOOSE i \in ids : TRUE IN
-          Explain(Sc.streams[x], cons[x], o.ev[id], SubKind(X, Y, id), Exact(id))]
+          IF x \in Aggs THEN cons[x] \o FlatBatches(o.ev[id])
+          ELSE Explain(Sc.streams[x], cons[x], o.ev[id], SubKind(X, Y, id), Exact(id))]
 DeliverOK(X, Y, o) ==
-  /\ \A x \in DOMAIN cons : NewCons(X, Y, o)[x] # -1
+  /\ \A x \in DOMAIN cons \ Aggs : NewCons(X, Y, o)[x] # -1
   /\ \A id \in DOMAIN o.ev : IdStr(id) \notin DOMAIN cons => ~Exact(id)
 
 NewOutc(o) ==
@@ -236,7 +264,8 @@ Finished == \A s \in Sessions : pos[s] > Len(Log(s))
 
 FinalChecks ==
   \* every recorded event has been explained
-  /\ \A x \in DOMAIN cons : cons[x] = Len(Sc.streams[x])
+  /\ \A x \in DOMAIN cons \ Aggs : cons[x] = Len(Sc.streams[x])
+  /\ \A x \in Aggs \cap DOMAIN cons : AggOK(x)
   \* acquire-lock requests: confirmed exactly when granted, refused when cancelled, else pending
   /\ \A q \in DOMAIN acq :
        LET j == Log(acq[q][1])[acq[q][2]] IN
